@@ -517,6 +517,11 @@ def run(ctx):
     ctx.guarded('C17-D5', 'readers@derivation', d5_derivation, ctx)
     ctx.guarded('C17-D1', 'sfcf@pairing', d6_sfcf_pairing, ctx)
     ctx.guarded('C17-D5', 'openQCD@relabelling', d7_relabelling, ctx)
+    from .. import unusedparams
+    ctx.rule('C17-D6', 'every accepted option is read (no silently ignored parameter)')
+    for mn_ in ('input.openQCD', 'input.sfcf', 'input.hadrons', 'input.misc', 'input.utils'):
+        ctx.guarded('C17-D6', mn_ + '@parameters', unusedparams.check, ctx, 'C17-D6', ctx.repo.mod(mn_))
+
 
 
 SELFTEST = [
@@ -525,6 +530,8 @@ SELFTEST = [
     ('fix-reverted-ms5', 'pyerrors/input/openQCD.py', "    names = [name for _, name in sorted(zip(files, names), key=lambda pair: pair[0])]\n", "    names = sorted(names)\n", 'C17-D1'),
     ('sfcf-user-files-unsorted', 'pyerrors/input/sfcf.py', "        files.sort(key=lambda x: int(re.findall(r'\\d+', x)[-1]))", "        sub_ls = sorted(files, key=lambda x: int(re.findall(r'\\d+', x)[-1]))", 'C17-D1'),
     ('relabel-guard-weakened', 'pyerrors/input/openQCD.py', "            if configlist[-1][0] > 1 and diffmeas > 1:", "            if configlist[-1][0] > 1:", 'C17-D5'),
+    ('sfcf-silent-dropped', 'pyerrors/input/sfcf.py', "                          cfg_separator=cfg_separator, silent=silent, **kwargs)", "                          cfg_separator=cfg_separator, **kwargs)", 'C17-D6'),
+    ('qtop-version-dropped', 'pyerrors/input/openQCD.py', "    return _read_flow_obs(path, prefix, c, dtr_cnfg=dtr_cnfg, version=version, obspos=0, **kwargs)", "    return _read_flow_obs(path, prefix, c, dtr_cnfg=dtr_cnfg, obspos=0, **kwargs)", 'C17-D6'),
     ('listing-unsorted', 'pyerrors/input/openQCD.py', "    files = sort_names(files)\n    return files", "    return files", 'C17-D2'),
     ('listing-lexicographic', 'pyerrors/input/misc.py', "        ls.sort(key=lambda x: int(re.findall(r'\\d+', x[len(prefix):])[0]))", "        ls.sort()", 'C17-D2'),
     ('hadrons-unsorted', 'pyerrors/input/hadrons.py', "    files.sort(key=get_cnfg_number)\n", "", 'C17-D2'),
